@@ -71,7 +71,7 @@ pub fn engines() -> Vec<Engine> {
         generate: crate::c13::generate,
         execute: crate::c13::execute,
         shrink: crate::c13::shrink,
-        runs_quick: 112,
+        runs_quick: 88,
         runs_thorough: 4800,
         cap_thorough_secs: 1500,
         rule: "one evaluation = one zerv child process judged by the clean-failure oracle; per scenario (seeded world state x command) the fault-free run is traced and then EVERY git invocation k x EVERY proxy fault kind is executed (enumerated, not sampled), plus whole-run git faults, 2-3 fault sequences, storage corruptions (target x manner), stdin / cwd / non-UTF-8 argv faults, interleaved repository mutations at every invocation index (thorough) and a seeded adversarial argv workload drawn from the flag set the binary itself reports; distinct = distinct (git sub-command, invocation index, fault kind, zerv sub-command, outcome class) tuples whose fault actually fired according to the proxy trace, plus distinct storage / stdin / cwd / whole-run / mutation placements",
